@@ -328,9 +328,97 @@ def run_devlayer(ctx, V, which, n_quick, n_thorough, pmsim_monitors, pmsim_style
     return exe
 
 
+# ------------------------------------------------------------------------------------------- telnet reply floods (F38)
+TELNET_CONF = """specification "s" {
+	timeout %s
+	plug name { "1" }
+	script login {
+		expect "login: "
+		send "%s\\n"
+		expect "ready\\n"
+	}
+	script on { send "ON %%s\\n" expect "ok\\n" }
+}
+device "d0" "s" "hd0:7000"
+node "t0" "d0" "1"
+"""
+
+
+def telnet_flood_cases(rng, n):
+    """raw pmsim histories against a tcp device whose peer floods telnet option requests while it does / does not read: the option replies
+    pile up in dev->to (up to MAX_DEV_BUF, then the oldest are overwritten) and a send statement starts on top of them"""
+    out = []
+    for f in load_corpus("C07"):
+        if f.get("kind") == "pmsim-raw":
+            rounds = []
+            for k, evs in f["rounds_rle"]: rounds += [evs] * k
+            out.append(dict(name="corpus:" + f["what"][:40], config=f["config"], rounds=rounds))
+    for i in range(n):
+        opt = rng.choice([1, 3, 6, 24, 31, 32, 33, 34, 35, 39, 3, 1, 0, 200])
+        cmd = rng.choice([253] * 9 + [251, 254, 252])             # DO (answered) mostly; WILL / DONT / WONT are ignored
+        unit = bytes([255, cmd, opt])
+        per = rng.choice([340, 341, 300, 100, 21845])
+        total = rng.choice([66000, 70000, 131072, 40000])
+        stall = rng.random() < 0.85
+        wcap = None if stall or rng.random() < 0.5 else rng.choice([0, 10, 1000])
+        sendstr = "a" * rng.choice([1, 5, 40, 900])
+        rounds = [["ADV 1000", "CONNDONE conn0 ok"], ["ADV 1000"] + (["STALL conn0 1"] if stall else []) + (["WCAP conn0 %d" % wcap] if wcap is not None else [])]
+        sent = 0
+        while sent < total:
+            rounds.append(["ADV 1000", "IN conn0 " + (unit * per).hex()]); sent += 3 * per
+            if per > 341: rounds += [["ADV 1000"]] * (3 * per // 1000 + 2)       # one read takes at most the free space of dev->from (1 KiB while it stays empty)
+        rounds.append(["ADV 1000", "IN conn0 " + b"login: ".hex()])
+        rounds += [["ADV 1000"]] * 3 + [["ADV 1000", "STALL conn0 0", "WCAP conn0 -1"]] + [["ADV 1000"]] * 3 + [["ADV 1000", "IN conn0 " + b"ready\n".hex()]] + [["ADV 1000"]] * 4
+        out.append(dict(name="gen:%d" % i, config=TELNET_CONF % (rng.choice([10, 30]), sendstr), rounds=rounds))
+    return out
+
+
+def run_telnet_floods(ctx, V, exe, n):
+    import pmsim
+
+    def one(ic):
+        i, c = ic
+        conf = os.path.join(ctx.scratch, "tf_%d.conf" % i)
+        open(conf, "w").write(c["config"])
+        s = pmsim.Sim(exe, conf, stderr_path=os.path.join(ctx.scratch, "tf_%d.err" % i))
+        for evs in c["rounds"]:
+            if s.next_round() is None: break
+            s.send(evs)
+        if s.done is None:
+            for _ in range(20):
+                s.send(["SIG TERM"])
+                if s.next_round() is None: break
+            if s.done is None: s.kill()
+        try: err = open(os.path.join(ctx.scratch, "tf_%d.err" % i), "rb").read().decode("latin-1")
+        except OSError: err = ""
+        return s.done, err, len(s.events)
+    cases = telnet_flood_cases(ctx.rng, n)
+    with ThreadPoolExecutor(16) as ex:
+        res = list(ex.map(one, enumerate(cases)))
+    for c, (done, err, nr) in zip(cases, res):
+        overrun = "buffer overrun" in err
+        V.case(("telnet-flood", c["config"], tuple(map(tuple, c["rounds"]))), nontrivial=True)
+        V.count("telnet-flood"); V.count("telnet-flood:overrun-reached" if overrun else "telnet-flood:no-overrun")
+        if not done or done.get("kind") != "return" or done.get("status") != 0:
+            site = "SITE_SEND_ASSERT:telnet-reply-overrun" if "_process_send" in err and "Assertion" in err else "pmsim:%s" % (done or {}).get("kind")
+            w = dict(kind="pmsim-raw", config=c["config"], rounds_rle=_rle(c["rounds"]), stderr=err[-600:], status=done)
+            V.violation("daemon-aborts", site, w, "a tcp device that floods telnet option requests (replies pile up in dev->to) kills the daemon: %s" % (err[-300:],))
+
+
+def _rle(rounds):
+    out = []
+    for r in rounds:
+        if out and out[-1][1] == r: out[-1][0] += 1
+        else: out.append([1, r])
+    return out
+
+
 def run(ctx, V):
-    run_devlayer(ctx, V, ("fd", "login", "count"), 260, 6000, ["alive", "wedge"], ("faults", "mixed"), 260,
-                 "C07: a non-zero exit of the harness (assert, ASan, UBSan) or an OUTCOME of the model is a violation `daemon-aborts`.")
+    exe = run_devlayer(ctx, V, ("fd", "login", "count"), 260, 6000, ["alive", "wedge"], ("faults", "mixed"), 260,
+                       "C07: a non-zero exit of the harness (assert, ASan, UBSan) or an OUTCOME of the model is a violation `daemon-aborts`.")
+    run_telnet_floods(ctx, V, exe, 12 if ctx.tier == "quick" else 200)
+    V.rule += (" + telnet reply floods on pmsim (tcp device whose peer stops reading / reads slowly and sends 40-128 KiB of IAC DO|WILL|DONT|WONT <opt>, then the "
+               "login prompt: a send statement starts on a dev->to full of option replies; corpus/C07 holds the F38 history) - the daemon must survive and shut down cleanly")
 
 
 def replay(ctx, V, path):
